@@ -3,8 +3,8 @@
 import json, os, re, shutil, glob
 SRC = '/tmp/seed-out'; DST = os.path.join(os.path.dirname(os.path.dirname(os.path.abspath(__file__))), 'seeded')
 NOTES = {
- 'C02-10': 'a reader defect of oj.Tokenizer (the finishing pass skipped when io.EOF comes on a read of its own): not caught by C02 (it reads events from the []byte entry point); caught by C03 (reader entry points against the other front-ends)',
- 'C02-11': 'a sen.Tokenizer defect on plain JSON (member after an array-valued member): not caught by C02 (oj and gen front-ends); caught by C03 (token family, every front-end on container texts)',
+ 'C02-10': 'strengthened: missed by C02 at first (it read events from the []byte entry point only; C03 caught it); C02 now also runs oj.Tokenizer, sen.Tokenizer and sen.Parser through their reader entry points (one-byte reads) and sen.Tokenizer on the whole text',
+ 'C02-11': 'strengthened: missed by C02 at first (sen.Tokenizer was not among its front-ends; C03 caught it); see C02-10',
  'C02-12': 'strengthened: missed at first by C02, C03, C07 and C08 (no Parser with Reuse set was ever given a channel); C03 gained leg E: every exported parse / tokenize / validate entry point (package functions, Must* and *String forms, methods of fresh and Reuse parsers) x every kind of optional argument x every way a reader ends, against (&Parser{}).Parse of the same package',
  'C03-10': "strengthened: missed at first (the harness reader always delivered io.EOF on a read of its own); C01, C03 and C09 now run every chunking under the reader's other lawful answers as well: io.EOF together with the last chunk, one empty read (0, nil) at every position. This exposed a genuine defect of sen.Tokenizer.Load (47b8a7b)",
  'C03-11': 'strengthened: missed at first (no member with the empty name in the token contexts); contexts with "" as member name, at the top and nested, added',
